@@ -1,6 +1,5 @@
 import Moyo.Proofs.C16TypesCount
 import Mathlib.Data.List.Perm.Basic
-import Mathlib.Tactic.Tauto
 /-
 C16 (g) / C17, part 3: the evaluation strategy of `TypeInvariant.count` is correct,
 `count s prim = countSpec s prim` (`count_eq_countSpec`), for lists of coset representatives
